@@ -65,6 +65,16 @@ CLAIMED = {
    text='Compositional clauses on top of C02 (hexsim == ISA) and C03 (RTL == ISA): the system-call shim has exactly the simulator\'s effects for EXIT/WRITE/READ (argument slots, 8-bit truncation, stream routing primitives, store, exit value) and rejects other numbers; the loader puts the image at word 0 with the header<<2 size rule; after reset each requesting clock is serviced exactly once (also back-to-back), nothing is serviced without a request, EXIT ends the run and run() returns the exit value unchanged for all 32-bit values.',
    note='Not decided: end-to-end equality for concrete binaries/inputs (follows from the clauses only for programs that never read unwritten memory: hextb copies the symbol tables behind the image); stdout banner. Imports C02/C03 verdicts.',
    ref='DESIGN.md section 5, C06'),
+ 'C01': dict(
+   technique='static analysis: abstract interpretation (intervals, affine frame offsets, abstract AST objects built by the real constructors) of ExprCodeGen/StmtCodeGen/CodeBuffer/OptimiseExpr/ConstProp over all operator x operand-kind shapes with sub-expression code as an opaque step; template analysis of the generated directive sequences; AST rules',
+   text='Structural necessary conditions only (equivalence of source and binary for every program is not decidable statically here): R1 register-target discipline; R2 the tree survives code generation (no moved-from child); R3 label classification; R4 generated labels cannot be identifiers; R5 frame-offset balance of every call/operator template; R6 string packing incl. the empty string; R7 operator coverage; R8 spill-slot discipline (values read back after a sub-expression sit in reserved frame slots; outgoing actuals are protected from later temporaries, proved with symbolic frame-size lower bounds); R9/R10 the expression optimiser and the folder preserve the X meaning of every operator/operand-class shape on the ordering domain. Breaking any of them miscompiles or crashes on some program.',
+   note='NOT decided: control-flow templates (branch polarity of if/while/and/or), calling-convention slot numbers beyond R5/R8, peephole soundness, recursion; hence a pass is not a proof of C01. Trusted: clang AST; interpreter; X operator table.',
+   ref='DESIGN.md section 5, C01'),
+ 'C07': dict(
+   technique='static analysis: abstract interpretation of ConstProp / OptimiseExpr / genConst on abstract AST objects over the complete ordering domain of operand values and over operand classes (variable, zero, constant, operator sub-tree); interval analysis for overflow; CFG guard rule for val propagation',
+   text='Clauses: R1 the fold table equals the X operator table for every ordering/zero-test combination; R2 every rewrite (~=, >=, >, <=, unary minus, and anything else OptimiseExpr does to an operator over each operand class, unary operators over every operator below) preserves meaning on the ordering domain; R3 folding of + - unary- over all of int has no signed overflow and wraps; R4 folded constants are materialised in the requested register; R5 val names are propagated only when constant; R6 genConst loads the requested value into the requested register, immediate inside (-65536,65536), one pool word per value outside.',
+   note='Comparison operators inspect operands only through their order, so the ordering domain is exact for them; agreement with the run-time code sequence where the subtraction inside < wraps is a documented gap (not decided).',
+   ref='DESIGN.md section 5, C07'),
 }
 
 NOT_YET = 'engine not finished yet in this round (DESIGN.md section 7 build order); no check is registered, nothing is claimed'
